@@ -115,6 +115,8 @@ type Forbid struct {
 	Funcs   []string // forbidden callee functions (ssa keys)
 	Except  []string // functions of this package that are exempt
 	Writes  []string // Type.Field: fields that only exempt functions may write
+	Reads   []string // Type.Field: fields that nothing reachable from the From functions may read
+	From    []string // root functions (ssa keys relative to the package, e.g. (*BaseTransaction).hash)
 	File    string
 	Line    int
 }
@@ -304,7 +306,7 @@ func (cs *ContractSet) loadFile(path, pkg string) error {
 			mode := ""
 			for _, f := range strings.Fields(rest) {
 				switch f {
-				case "props", "pkg", "func", "except", "write":
+				case "props", "pkg", "func", "except", "write", "read", "from":
 					mode = f
 				default:
 					switch mode {
@@ -316,6 +318,11 @@ func (cs *ContractSet) loadFile(path, pkg string) error {
 						fb.Funcs = append(fb.Funcs, strings.Trim(f, ","))
 					case "except":
 						fb.Except = append(fb.Except, strings.Trim(f, ","))
+					case "read":
+						// `forbid props Cxx read Type.Field from F G`: nothing reachable from F, G loads these fields
+						fb.Reads = append(fb.Reads, strings.Trim(f, ","))
+					case "from":
+						fb.From = append(fb.From, strings.Trim(f, ","))
 					case "write":
 						// `forbid props Cxx write Type.Field ... except F G`: only the exempt functions may
 						// store to (or take the address of) these fields
